@@ -85,17 +85,16 @@ def run_one(case):
                 w.run(lambda: any(m["cmd"] == 282 for m in w._safe_sent()), 5.0)
         sock = w.sock
         early = []
-        if role == "client":
-            left = [w.state() != "Closed"]
+        left = [w.state() != "Closed"]
 
-            def hook(cur, kind):
-                st_now = w.state()
-                if st_now != "Closed":
-                    left[0] = True
-                elif left[0] and not early and sock is not None and not sock.closed:
-                    # the state machine has been out of Closed and reports Closed again while the connection socket is open
-                    early.append((kind, cur.name, [sock.fd]))
-            w.sched.step_hook = hook
+        def hook(cur, kind):
+            st_now = w.state()
+            if st_now != "Closed":
+                left[0] = True
+            elif left[0] and not early and sock is not None and not sock.closed:
+                # the state machine has been out of Closed and reports Closed again while the connection socket is open
+                early.append((kind, cur.name, [sock.fd]))
+        w.sched.step_hook = hook
         # ---------------- generated part: the cause, under the generated schedule prefix
         w.sched.choices = list(case["sched"])
         w.sched.choice_i = 0
